@@ -88,6 +88,9 @@ func intInfo(b *types.Basic) (w int, signed bool, ok bool) {
 
 func leavesOf(t types.Type) []Leaf {
 	k := typeKey(t)
+	if gInt {
+		k = "int:" + k
+	}
 	leafMu.Lock()
 	ti, ok := leafCache[k]
 	leafMu.Unlock()
@@ -208,6 +211,7 @@ type Val struct {
 	Fn     *ssa.Function // closures: body
 	Bind   []*Val        // closures: captured values
 	boxed  *Val          // interfaces: statically known boxed value
+	Bits   *Term         // floats obtained from math.FloatNNfrombits: the exact bit pattern (NaN payloads)
 }
 
 func rootForPointee(t types.Type) string {
@@ -331,7 +335,7 @@ const maxLen = int64(1) << 40 // assumed upper bound on slice/string lengths and
 
 // typeInvariant returns assumptions that hold of every value of the leaf kinds
 // (slice len/cap/off ranges). Returned as a list of formulas over v.L.
-func typeInvariants(v *Val) []Term {
+func typeInvariantsUnused(v *Val) []Term {
 	var out []Term
 	ls := leavesOf(v.T)
 	for i, l := range ls {
